@@ -192,7 +192,7 @@ func (p *Program) Explore(hc HarnessConfig) Result {
 		hc.Solver = "z3"
 	}
 	if hc.TimeoutMs <= 0 {
-		hc.TimeoutMs = 20000
+		hc.TimeoutMs = 120000
 	}
 	if hc.MaxViolations <= 0 {
 		hc.MaxViolations = 3
